@@ -723,3 +723,37 @@ def c09_r7(ctx: Ctx, rule):
     if not res.instances:
         res.ob("add_bundle never falls back on the bundle's own identifier", nontrivial=False)
     return res
+
+
+@rule("C08", "C08.R6", "unified() always goes through the merging helper: no fast path decides from auxiliary state that nothing needs merging", 2, family="F-PATH",
+      decides="repeated identifiers are merged whatever lookups were made on the bundle before")
+def c08_r6(ctx: Ctx, rule):
+    res = RuleResult()
+    helper = unified_helper(ctx).rsplit(".", 1)[1]
+    from ..mutation import all_assignments
+
+    for q in (BUNDLE + ".unified", DOC + ".unified"):
+        fi = ctx.fn(q)
+        sources = []
+        for c in calls_in(fi.node):
+            for k in c.keywords:
+                if k.arg == "records":
+                    sources.append(k.value)
+            r = ctx.p.resolve_dotted(fi.module, c.func) if dotted(c.func) else None
+            if r and r[0] == "class" and r[1] in (BUNDLE, DOC) and c.args:
+                sources.append(c.args[0])
+        for n in walk_function(fi.node):
+            if isinstance(n, ast.For) and any(call_name(c) == "add_record" for c in ast.walk(n) if isinstance(c, ast.Call)):
+                sources.append(n.iter)
+        if not sources:
+            raise AnalysisError("%s: record source not found" % short(q))
+        for src in sources:
+            exprs = [src]
+            if isinstance(src, ast.Name):
+                exprs = [d for d in all_assignments(fi.node, src.id)]
+            ok = all(d is not None and isinstance(d, ast.Call) and call_name(d) == helper and norm(d.func.value) == "self" for d in exprs)
+            res.ob("%s: records come from %s only through self.%s(): %s" % (short(q), norm(src)[:40], helper, ok))
+            if not ok:
+                res.fail(rule.id, "unified-bypasses-merge::%s" % q, ctx.loc(q, src), "%s can take its records from %s instead of self.%s()" % (short(q), [norm(d)[:40] for d in exprs if d is not None], helper),
+                         "a bundle with repeated identifiers on which get_record() was asked for as many unknown identifiers as there are surplus records is returned un-merged")
+    return res
